@@ -7,14 +7,13 @@ package utf8lib
 
 // C06: utf8.char charges the worst-case size of its buffer before allocating it.
 //@ func char
-//@   prop C06
+//@   prop C06 C04
 //@   arith int
-//@   norte
-//@   requires t != nil && t.Runtime != nil && c != nil
+//@   requires t != nil && t.Runtime != nil && c != nil && t.Runtime != nil && c.GoFunction != nil && c.next != nil && len(c.args) == 0 && c.etc != nil
 //@   modifies everything()
-//@   exits any
+//@   exits ContextTerminationError
 //@   allocs charged slack 0
-//@   loop 1: invariant true
+//@   loop 1: invariant 0 <= bufLen && bufLen <= 6 * (rangeindex + 1) && len(cur) == maxLen - bufLen && maxLen == 6 * len(runes) && -1 <= rangeindex && rangeindex < len(runes) && len(buf) == maxLen
 
 // C04: the scanning loops of the utf8 library stay inside the string for all
 // positions and all byte contents (the decoders consume 1..6 bytes, never more
